@@ -402,6 +402,13 @@ theorem endSlice_sleep (t : State) (g : Nat) (hlt : g < t.gs.length) (he : (getG
   have : (getG { t with cur := none } g).asleep = true := ha
   simp only [this, if_true]
 
+theorem endSlice_sleep_fields (t : State) (g : Nat) (hlt : g < t.gs.length) (he : (getG t g).exit = false)
+    (ha : (getG t g).asleep = true) :
+    (endSlice t g).deadlocks = deadlocksAfter t ∧ (endSlice t g).awake = t.awake - 1 ∧ (endSlice t g).gs = t.gs ∧
+    (endSlice t g).mainFinished = t.mainFinished := by
+  rw [endSlice_sleep t g hlt he ha]
+  unfold loopTail; split <;> exact ⟨rfl, rfl, rfl, rfl⟩
+
 theorem endSlice_exit (t : State) (g : Nat) (hlt : g < t.gs.length) (he : (getG t g).exit = true) :
     endSlice t g = loopTail { t with cur := none, gs := t.gs.set g { getG t g with asleep := true },
                                      total := t.total - 1, awake := t.awake - 1, deadlocks := deadlocksAfter t } := by
@@ -965,5 +972,421 @@ theorem doSelect_ginv (s : State) (g : Nat) (cases : List Case) (pick : Nat) (h 
       rcases r.mem k snd e he with h1 | ⟨h1, j, _, h3, h4⟩
       · exact Or.inl h1
       · exact Or.inr ⟨h1, by simp only [Match, h3]; exact h4⟩
+
+/-! ### every event -/
+
+theorem closeSenders_cur : ∀ (n : Nat) (s : State) (c : Nat), (closeSenders n s c).cur = s.cur := by
+  intro n; induction n with
+  | zero => intro s c; rfl
+  | succ n ih =>
+    intro s c; unfold closeSenders; simp only
+    split
+    · rfl
+    · rw [ih, fireSend_cur]; rfl
+
+theorem closeRecvs_cur : ∀ (n : Nat) (s : State) (c : Nat), (closeRecvs n s c).cur = s.cur := by
+  intro n; induction n with
+  | zero => intro s c; rfl
+  | succ n ih =>
+    intro s c; unfold closeRecvs; simp only
+    split
+    · rfl
+    · rw [ih, fireRecv_cur]; rfl
+
+theorem doClose_cur (s : State) (c : Nat) : (doClose s c).1.cur = s.cur := by
+  unfold doClose; simp only
+  split
+  · rfl
+  · split
+    · rfl
+    · rw [closeRecvs_cur, closeSenders_cur]; rfl
+
+theorem findTimer_mem {ts : List (Nat × TimerKind)} {id : Nat} {k : TimerKind} (h : findTimer ts id = some k) :
+    (id, k) ∈ ts := by
+  unfold findTimer at h
+  split at h
+  · next t ht =>
+    have hm := List.mem_of_find?_eq_some ht
+    have hp := List.find?_some ht
+    simp only [beq_iff_eq] at hp
+    cases h
+    have : t = (id, t.2) := by rw [← hp]
+    rw [← this]; exact hm
+  · cases h
+
+theorem step_ginv (s : State) (ev : Event) (h : GInv s) : GInv (step s ev).1 := by
+  unfold step
+  split
+  · next g hc =>
+    split
+    · exact h.makechan _
+    · exact h.goNew
+    · split
+      · exact doSend_ginv _ _ _ _ h hc
+      · exact h
+    · split
+      · exact doRecv_ginv _ _ _ h hc
+      · exact h
+    · split
+      · exact doClose_ginv _ _ h
+      · exact h
+    · split
+      · exact doSelect_ginv _ _ _ _ h hc
+      · exact h
+    · split
+      · exact h.after _
+      · exact h
+    · exact h.exit g hc
+    · exact h.flags true s.inLoop
+    · exact h
+  · next hc =>
+    split
+    · split
+      · split
+        · next g rest hs => exact h.runHead g rest hs hc
+        · exact h
+      · exact h.flags s.mainFinished false
+      · exact h
+    · split
+      · exact h.makechan _
+      · exact h.goNew.enterLoop (by show s.cur = none; exact hc)
+      · split
+        · exact h
+        · next hf =>
+          apply GInv.enterLoop
+          · exact h.timers _ s.nextTimer s.loopTimer s.inLoop (userTimers_erase_runSched _ _)
+          · exact hc
+        · next c hf =>
+          simp only
+          split
+          · exact h
+          · have h1 := h.fireUser _ c (findTimer_mem hf)
+            split
+            · next s2 heq =>
+              have e := congrArg Prod.fst heq; simp only at e
+              have h2 : GInv s2 := by rw [← e]; exact doClose_ginv _ _ h1
+              split
+              · apply h2.enterLoop
+                rw [← e, doClose_cur]; exact hc
+              · exact h2
+            · exact doClose_ginv _ _ h1
+      · exact h
+
+theorem init_ginv : GInv GV.Sched.init where
+  own := fun k snd e he => by
+    have := entsC_lt he
+    have hk : k = 0 := by simp [GV.Sched.init] at this; exact this
+    subst hk; cases snd <;> simp [entsC, GV.Sched.init, Chan.nil, Chan.make] at he
+  nodup := fun k snd => by
+    have : entsC GV.Sched.init.chans k snd = [] := by
+      cases k with
+      | zero => cases snd <;> simp [entsC, GV.Sched.init, Chan.nil, Chan.make]
+      | succ n => cases snd <;> simp [entsC, GV.Sched.init, Chan.nil, Chan.make]
+    show ((entsC GV.Sched.init.chans k snd).map key).Nodup
+    rw [this]; simp
+  sched := fun g hg => by simp [GV.Sched.init] at hg
+  schedNodup := by simp [GV.Sched.init]
+  cur := fun g hc => by simp [GV.Sched.init] at hc
+  awake := by simp [GV.Sched.init, awakeCount, userTimers]
+  total := by simp [GV.Sched.init, aliveCount]
+
+theorem runAll_ginv : ∀ (evs : List Event) (s : State), GInv s → GInv (runAll s evs) := by
+  intro evs; induction evs with
+  | nil => intro s h; exact h
+  | cons e es ih => intro s h; exact ih _ (step_ginv s e h)
+
+/-! ### what `$close` does to the goroutines it wakes -/
+
+theorem mem_removeEntry_of_ne {g i : Nat} {q : List Entry} {e : Entry} (he : e ∈ q) (hne : e.gid ≠ g) :
+    e ∈ removeEntry g i q := by
+  unfold removeEntry
+  apply List.mem_filter.mpr
+  refine ⟨he, ?_⟩
+  simp [hne]
+
+theorem removeFromQueues_keeps (g : Nat) : ∀ (rest : List Case) (i : Nat) (cs : List Chan) (k : Nat) (snd : Bool) (e : Entry),
+    e ∈ entsC cs k snd → e.gid ≠ g → e ∈ entsC (removeFromQueues g rest i cs) k snd := by
+  intro rest; induction rest with
+  | nil => intro i cs k snd e he _; exact he
+  | cons c rest ih =>
+    intro i cs k snd e he hne
+    cases c with
+    | dflt => exact ih _ _ _ _ _ he hne
+    | recv c0 =>
+      apply ih _ _ _ _ _ _ hne
+      rw [entsC_set]; split
+      · next hh =>
+        cases snd
+        · simp only [Bool.false_eq_true, if_false]
+          apply mem_removeEntry_of_ne _ hne
+          have := he; unfold entsC at this; simp only [Bool.false_eq_true, if_false] at this; rw [← hh.1] at this; exact this
+        · simp only [if_true]
+          have := he; unfold entsC at this; simp only [if_true] at this; rw [← hh.1] at this; exact this
+      · exact he
+    | send c0 v =>
+      apply ih _ _ _ _ _ _ hne
+      rw [entsC_set]; split
+      · next hh =>
+        cases snd
+        · simp only [Bool.false_eq_true, if_false]
+          have := he; unfold entsC at this; simp only [Bool.false_eq_true, if_false] at this; rw [← hh.1] at this; exact this
+        · simp only [if_true]
+          apply mem_removeEntry_of_ne _ hne
+          have := he; unfold entsC at this; simp only [if_true] at this; rw [← hh.1] at this; exact this
+      · exact he
+
+/-- the effect of one queue entry being called, on everything -/
+theorem wakeG_spec (s : State) (g : Nat) (w : Wake) (cases : List Case)
+    (hlt : g < s.gs.length) (hasleep : (getG s g).asleep = true) :
+    getG (wakeG s g w cases) g = { getG s g with wake := w, asleep := false } ∧
+    (∀ g', g' ≠ g → getG (wakeG s g w cases) g' = getG s g') ∧
+    (wakeG s g w cases).scheduled = s.scheduled ++ [g] ∧
+    (∀ k snd e, e ∈ ents s k snd → e.gid ≠ g → e ∈ ents (wakeG s g w cases) k snd) ∧
+    (∀ k snd, (ents (wakeG s g w cases) k snd).Sublist (ents s k snd)) := by
+  rw [wakeG_eq s g w cases hlt hasleep]
+  refine ⟨by simp [getG_def, hlt], fun g' hne => by simp [getG_def, Ne.symm hne], rfl, ?_, ?_⟩
+  · intro k snd e he hne; exact removeFromQueues_keeps g cases 0 s.chans k snd e he hne
+  · intro k snd; exact entsC_shrinks (removeFromQueues_shrinks g cases 0 s.chans) k snd
+
+structure HeadSpec (s s1 : State) (c : Nat) (snd : Bool) (e0 : Entry) (rest : List Entry) (w : Wake) : Prop where
+  wasAsleep : (getG s e0.gid).asleep = true
+  woken : getG s1 e0.gid = { getG s e0.gid with wake := w, asleep := false }
+  others : ∀ g', g' ≠ e0.gid → getG s1 g' = getG s g'
+  sched : s1.scheduled = s.scheduled ++ [e0.gid]
+  keeps : ∀ k snd' e, e ∈ ents s k snd' → e.gid ≠ e0.gid → e ∈ ents s1 k snd'
+  sub : ∀ k snd', (ents s1 k snd').Sublist (ents s k snd')
+  subRest : (ents s1 c snd).Sublist rest
+
+theorem headSpec {s : State} (h : GInv s) (c : Nat) (snd : Bool) (e0 : Entry) (rest : List Entry)
+    (hq : ents s c snd = e0 :: rest) (x : Chan)
+    (hx : (if snd then x.sendQ else x.recvQ) = rest)
+    (ho : (if snd then x.recvQ else x.sendQ) = entsC s.chans c (!snd)) (w : Wake) (cases : List Case) :
+    HeadSpec s (wakeG (setC s c x) e0.gid w cases) c snd e0 rest w := by
+  have hlt : c < s.chans.length := entsC_lt (k := c) (snd := snd) (e := e0) (by show e0 ∈ ents s c snd; rw [hq]; simp)
+  have hown := h.own c snd e0 (by rw [hq]; simp)
+  have ht1 : entsC (s.chans.set c x) c snd = rest := by rw [entsC_set]; simp [hlt, hx]
+  have ht2 : ∀ k' snd', ¬(k' = c ∧ snd' = snd) → entsC (s.chans.set c x) k' snd' = ents s k' snd' := by
+    intro k' snd' hne
+    rw [entsC_set]; split
+    · next hh =>
+      have hk : k' = c := hh.1.symm
+      subst hk
+      have : snd' = !snd := by cases snd <;> cases snd' <;> simp_all
+      subst this
+      cases snd <;> simp_all
+    · rfl
+  have hsubt : ∀ k' snd', (entsC (s.chans.set c x) k' snd').Sublist (ents s k' snd') := by
+    intro k' snd'
+    by_cases hh : k' = c ∧ snd' = snd
+    · rw [hh.1, hh.2, ht1, hq]; exact List.sublist_cons_self _ _
+    · rw [ht2 k' snd' hh]; exact List.Sublist.refl _
+  obtain ⟨w1, w2, w3, w4, w5⟩ := wakeG_spec (setC s c x) e0.gid w cases hown.lt hown.asleep
+  refine ⟨hown.asleep, w1, w2, w3, ?_, ?_, ?_⟩
+  · intro k snd' e he hne
+    apply w4 k snd' e _ hne
+    show e ∈ entsC (s.chans.set c x) k snd'
+    by_cases hh : k = c ∧ snd' = snd
+    · rw [hh.1, hh.2, ht1]
+      have : e ∈ e0 :: rest := by rw [← hq, ← hh.1, ← hh.2]; exact he
+      rcases List.mem_cons.mp this with h1 | h1
+      · exact absurd (h1 ▸ rfl) hne
+      · exact h1
+    · rw [ht2 k snd' hh]; exact he
+  · intro k snd'; exact (w5 k snd').trans (hsubt k snd')
+  · have := w5 c snd
+    have h2 : ents (setC s c x) c snd = rest := ht1
+    rw [h2] at this; exact this
+
+/-- loop 1 of `$close`: every queued sender's goroutine is woken with the "send on closed channel" result -/
+theorem closeSenders_post : ∀ (n : Nat) (s : State) (c : Nat), GInv s → (getC s c).sendQ.length ≤ n →
+    (∀ g, (getG s g).asleep = false → getG (closeSenders n s c) g = getG s g) ∧
+    (∀ g ∈ s.scheduled, g ∈ (closeSenders n s c).scheduled) ∧
+    (∀ e ∈ (getC s c).sendQ, (getG (closeSenders n s c) e.gid).asleep = false ∧
+        (getG (closeSenders n s c) e.gid).wake = .sent true ∧ e.gid ∈ (closeSenders n s c).scheduled) ∧
+    (∀ k snd e, e ∈ ents s k snd → (∀ e0 ∈ (getC s c).sendQ, e0.gid ≠ e.gid) →
+        e ∈ ents (closeSenders n s c) k snd ∧ getG (closeSenders n s c) e.gid = getG s e.gid) := by
+  intro n; induction n with
+  | zero =>
+    intro s c _ hl
+    have : (getC s c).sendQ = [] := List.eq_nil_of_length_eq_zero (Nat.le_zero.mp hl)
+    unfold closeSenders
+    refine ⟨fun _ _ => rfl, fun _ hg => hg, ?_, fun k snd e he _ => ⟨he, rfl⟩⟩
+    intro e he; rw [this] at he; cases he
+  | succ n ih =>
+    intro s c h hl
+    unfold closeSenders; simp only
+    split
+    · next heq =>
+      refine ⟨fun _ _ => rfl, fun _ hg => hg, ?_, fun k snd e he _ => ⟨he, rfl⟩⟩
+      intro e he; rw [heq] at he; cases he
+    · next e0 sq heq =>
+      have hq : ents s c true = e0 :: sq := by rw [ents_send]; exact heq
+      have hg1 : GInv (fireSend (setC s c { getC s c with sendQ := sq }) e0 true) := by
+        apply fireSend_ginv h c e0 sq heq <;> rfl
+      have hs : HeadSpec s (fireSend (setC s c { getC s c with sendQ := sq }) e0 true) c true e0 sq (.sent true) := by
+        unfold fireSend
+        cases e0.sel with
+        | none => exact headSpec h c true e0 sq hq _ rfl (by simp [entsC, getC_def]) _ _
+        | some i => exact headSpec h c true e0 sq hq _ rfl (by simp [entsC, getC_def]) _ _
+      generalize fireSend (setC s c { getC s c with sendQ := sq }) e0 true = s1 at hg1 hs ⊢
+      have hsub : (getC s1 c).sendQ.Sublist sq := by have := hs.subRest; rw [ents_send] at this; exact this
+      have hl1 : (getC s1 c).sendQ.length ≤ n := by
+        have := hsub.length_le; rw [heq] at hl; simp at hl; omega
+      obtain ⟨ia, ib, ic, id⟩ := ih s1 c hg1 hl1
+      have hwoken : (getG s1 e0.gid).asleep = false ∧ (getG s1 e0.gid).wake = .sent true := by rw [hs.woken]; exact ⟨rfl, rfl⟩
+      have hg0 : (getG (closeSenders n s1 c) e0.gid).asleep = false ∧ (getG (closeSenders n s1 c) e0.gid).wake = .sent true ∧
+          e0.gid ∈ (closeSenders n s1 c).scheduled := by
+        rw [ia e0.gid hwoken.1]
+        exact ⟨hwoken.1, hwoken.2, ib e0.gid (by rw [hs.sched]; simp)⟩
+      refine ⟨?_, ?_, ?_, ?_⟩
+      · intro g hg
+        have hne : g ≠ e0.gid := by intro e; rw [e, hs.wasAsleep] at hg; cases hg
+        rw [ia g (by rw [hs.others g hne]; exact hg), hs.others g hne]
+      · intro g hg; exact ib g (by rw [hs.sched]; simp [hg])
+      · intro e he
+        by_cases hge : e.gid = e0.gid
+        · rw [hge]; exact hg0
+        · have hmem : e ∈ (getC s1 c).sendQ := by
+            have := hs.keeps c true e (by rw [hq, ← heq]; exact he) hge
+            rw [ents_send] at this; exact this
+          exact ic e hmem
+      · intro k snd e he hno
+        have hge : e.gid ≠ e0.gid := fun e' => hno e0 (by rw [heq]; simp) e'.symm
+        have h1 := hs.keeps k snd e he hge
+        have := id k snd e h1 (fun e1 he1 => hno e1 (by rw [heq]; exact List.mem_cons_of_mem _ (hsub.subset he1)))
+        exact ⟨this.1, by rw [this.2, hs.others _ hge]⟩
+
+/-- the result a receive entry delivers when the channel is closed -/
+def closedRecvWake (e : Entry) : Wake :=
+  match e.sel with
+  | none => .recv 0 false
+  | some i => .sel i (some (0, false))
+
+/-- loop 2 of `$close`: every queued receiver's goroutine is woken with (zero, false) -/
+theorem closeRecvs_post : ∀ (n : Nat) (s : State) (c : Nat), GInv s → (getC s c).recvQ.length ≤ n →
+    (∀ g, (getG s g).asleep = false → getG (closeRecvs n s c) g = getG s g) ∧
+    (∀ g ∈ s.scheduled, g ∈ (closeRecvs n s c).scheduled) ∧
+    (∀ e ∈ (getC s c).recvQ, (getG (closeRecvs n s c) e.gid).asleep = false ∧ e.gid ∈ (closeRecvs n s c).scheduled ∧
+        ∃ e1 ∈ (getC s c).recvQ, e1.gid = e.gid ∧ (getG (closeRecvs n s c) e.gid).wake = closedRecvWake e1) := by
+  intro n; induction n with
+  | zero =>
+    intro s c _ hl
+    have : (getC s c).recvQ = [] := List.eq_nil_of_length_eq_zero (Nat.le_zero.mp hl)
+    unfold closeRecvs
+    refine ⟨fun _ _ => rfl, fun _ hg => hg, ?_⟩
+    intro e he; rw [this] at he; cases he
+  | succ n ih =>
+    intro s c h hl
+    unfold closeRecvs; simp only
+    split
+    · next heq =>
+      refine ⟨fun _ _ => rfl, fun _ hg => hg, ?_⟩
+      intro e he; rw [heq] at he; cases he
+    · next e0 rq heq =>
+      have hq : ents s c false = e0 :: rq := by rw [ents_recv]; exact heq
+      have hg1 : GInv (fireRecv (setC s c { getC s c with recvQ := rq }) e0 0 false) := by
+        apply fireRecv_ginv h c e0 rq heq <;> rfl
+      have hs : HeadSpec s (fireRecv (setC s c { getC s c with recvQ := rq }) e0 0 false) c false e0 rq (closedRecvWake e0) := by
+        unfold fireRecv closedRecvWake
+        cases e0.sel with
+        | none => exact headSpec h c false e0 rq hq _ rfl (by simp [entsC, getC_def]) _ _
+        | some i => exact headSpec h c false e0 rq hq _ rfl (by simp [entsC, getC_def]) _ _
+      generalize fireRecv (setC s c { getC s c with recvQ := rq }) e0 0 false = s1 at hg1 hs ⊢
+      have hsub : (getC s1 c).recvQ.Sublist rq := by have := hs.subRest; rw [ents_recv] at this; exact this
+      have hl1 : (getC s1 c).recvQ.length ≤ n := by
+        have := hsub.length_le; rw [heq] at hl; simp at hl; omega
+      obtain ⟨ia, ib, ic⟩ := ih s1 c hg1 hl1
+      have hwoken : (getG s1 e0.gid).asleep = false ∧ (getG s1 e0.gid).wake = closedRecvWake e0 := by rw [hs.woken]; exact ⟨rfl, rfl⟩
+      refine ⟨?_, ?_, ?_⟩
+      · intro g hg
+        have hne : g ≠ e0.gid := by intro e; rw [e, hs.wasAsleep] at hg; cases hg
+        rw [ia g (by rw [hs.others g hne]; exact hg), hs.others g hne]
+      · intro g hg; exact ib g (by rw [hs.sched]; simp [hg])
+      · intro e he
+        by_cases hge : e.gid = e0.gid
+        · rw [hge, ia e0.gid hwoken.1]
+          exact ⟨hwoken.1, ib e0.gid (by rw [hs.sched]; simp), e0, by rw [heq]; simp, rfl, hwoken.2⟩
+        · have hmem : e ∈ (getC s1 c).recvQ := by
+            have := hs.keeps c false e (by rw [hq, ← heq]; exact he) hge
+            rw [ents_recv] at this; exact this
+          obtain ⟨h1, h2, e1, he1, h3, h4⟩ := ic e hmem
+          exact ⟨h1, h2, e1, by rw [heq]; exact List.mem_cons_of_mem _ (hsub.subset he1), h3, h4⟩
+
+/-- what `$close` of an open, non-nil channel does (repaired runtime) -/
+structure CloseSpec (s s' : State) (c : Nat) : Prop where
+  cur : s'.cur = s.cur
+  closed : (getC s' c).closed = true
+  sendEmpty : (getC s' c).sendQ = []
+  recvEmpty : (getC s' c).recvQ = []
+  /-- every queued sender — plain or select case — is runnable and will panic in its own goroutine -/
+  senders : ∀ e ∈ (getC s c).sendQ, (getG s' e.gid).asleep = false ∧ e.gid ∈ s'.scheduled ∧ (getG s' e.gid).wake = .sent true
+  /-- every queued receiver is runnable with (zero, false) for one of its receive cases on `c` (or, when the same
+      select also had a send case on `c`, with the send panic) -/
+  receivers : ∀ e ∈ (getC s c).recvQ, (getG s' e.gid).asleep = false ∧ e.gid ∈ s'.scheduled ∧
+    (((∃ e0 ∈ (getC s c).sendQ, e0.gid = e.gid) ∧ (getG s' e.gid).wake = .sent true) ∨
+     (∃ e1 ∈ (getC s c).recvQ, e1.gid = e.gid ∧ (getG s' e.gid).wake = closedRecvWake e1))
+  /-- goroutines that were not asleep are untouched -/
+  frame : ∀ g, (getG s g).asleep = false → getG s' g = getG s g
+
+theorem doClose_spec (s : State) (c : Nat) (h : GInv s) (hc : c < s.chans.length)
+    (hnn : (getC s c).isNil = false) (hopen : (getC s c).closed = false) :
+    (doClose s c).2 = .ok ∧ CloseSpec s (doClose s c).1 c := by
+  unfold doClose
+  simp only
+  split
+  · next hh => rw [hnn] at hh; cases hh
+  split
+  · next hh => rw [hopen] at hh; cases hh
+  refine ⟨rfl, ?_⟩
+  simp only
+  have hg1 : getC (setC s c { getC s c with closed := true }) c = { getC s c with closed := true } := by
+    simp [getC_def, hc]
+  have h1 : GInv (setC s c { getC s c with closed := true }) := h.setC_same c _ rfl rfl
+  have hgg : ∀ g, getG (setC s c { getC s c with closed := true }) g = getG s g := fun _ => rfl
+  generalize hs1 : setC s c { getC s c with closed := true } = s1 at hg1 h1 hgg
+  have hq1 : (getC s1 c).sendQ = (getC s c).sendQ := by rw [hg1]
+  have hr1 : (getC s1 c).recvQ = (getC s c).recvQ := by rw [hg1]
+  have hsc1 : s1.scheduled = s.scheduled := by rw [← hs1]; rfl
+  have hcur1 : s1.cur = s.cur := by rw [← hs1]; rfl
+  have hlen : (getC s c).sendQ.length = (getC s1 c).sendQ.length := by rw [hq1]
+  rw [hlen]
+  obtain ⟨pa, pb, pc, pd⟩ := closeSenders_post (getC s1 c).sendQ.length s1 c h1 (Nat.le_refl _)
+  have h2 := closeSenders_ginv (getC s1 c).sendQ.length s1 c h1
+  have hemp := closeLoops_empty s1 c
+  have hshr := closeLoops_shrinks s1 c (getC s1 c).sendQ.length c
+  have hsub2 : (getC (closeSenders (getC s1 c).sendQ.length s1 c) c).recvQ.Sublist (getC s1 c).recvQ :=
+    (closeSenders_shrinks (getC s1 c).sendQ.length s1 c c).recvQ
+  have hcur2 := closeSenders_cur (getC s1 c).sendQ.length s1 c
+  generalize closeSenders (getC s1 c).sendQ.length s1 c = s2 at pa pb pc pd h2 hemp hshr hsub2 hcur2 ⊢
+  obtain ⟨qa, qb, qc⟩ := closeRecvs_post (getC s2 c).recvQ.length s2 c h2 (Nat.le_refl _)
+  have hcur3 := closeRecvs_cur (getC s2 c).recvQ.length s2 c
+  generalize closeRecvs (getC s2 c).recvQ.length s2 c = s3 at qa qb qc hemp hshr hcur3 ⊢
+  simp only at hemp
+  refine ⟨?_, ?_, hemp.1, hemp.2, ?_, ?_, ?_⟩
+  · rw [hcur3, hcur2, hcur1]
+  · have := hshr.closed; rw [← getC_def, ← getC_def, hg1] at this; exact this
+  · intro e he
+    rw [← hq1] at he
+    obtain ⟨c1, c2, c3⟩ := pc e he
+    rw [qa e.gid c1]
+    exact ⟨c1, qb _ c3, c2⟩
+  · intro e he
+    rw [← hr1] at he
+    by_cases hex : ∃ e0 ∈ (getC s1 c).sendQ, e0.gid = e.gid
+    · obtain ⟨e0, he0, hge⟩ := hex
+      obtain ⟨c1, c2, c3⟩ := pc e0 he0
+      rw [hge] at c1 c2 c3
+      rw [qa e.gid c1]
+      exact ⟨c1, qb _ c3, Or.inl ⟨⟨e0, by rw [← hq1]; exact he0, hge⟩, c2⟩⟩
+    · have hno : ∀ e0 ∈ (getC s1 c).sendQ, e0.gid ≠ e.gid := fun e0 he0 hge => hex ⟨e0, he0, hge⟩
+      have hm := (pd c false e (by rw [ents_recv]; exact he) hno).1
+      rw [ents_recv] at hm
+      obtain ⟨d1, d2, e1, he1, d3, d4⟩ := qc e hm
+      refine ⟨d1, d2, Or.inr ⟨e1, ?_, d3, d4⟩⟩
+      have hsub : (getC s2 c).recvQ.Sublist (getC s1 c).recvQ := by
+        exact hsub2
+      rw [← hr1]; exact hsub.subset he1
+  · intro g hg
+    rw [qa g (by rw [pa g (by rw [hgg]; exact hg), hgg]; exact hg), pa g (by rw [hgg]; exact hg), hgg]
 
 end GV.Proofs.SchedInv
